@@ -42,11 +42,26 @@ SHAPES = dict(one=lambda x: 1, fan=lambda x: 2, sparse=lambda x: (x + 1) % 2, mi
 def outs_of(shape, N): return [SHAPES[shape](x) for x in range(1, N + 1)]
 
 
+# Renderings of the spec's abstract items (Multiproc.tla: items are the integers 1..N; "any finite stream of items" does not say
+# what an item is).  "int" renders item x as the integer x; "pal<k>" renders item x as PALETTE[(x-1+k) % len(PALETTE)]: None, falsy
+# values of several types, containers holding None, values that equal each other across types (0 / 0.0 / False) - the stream's first
+# item is then PALETTE[k].  The filter's OUTPUTS stay the integers of Multiproc.tla!OutId (never None) under every rendering.
+PALETTE = [None, 0, "", [], (), 0.0, False, {}, b"", (None,), [None, None], "None", float("inf"), frozenset()]
+RENDERINGS = ["int"] + ["pal%d" % k for k in range(len(PALETTE))]
+def _key(o): return (type(o).__name__, repr(o))
+def render(rendering, x):
+    """The Python object standing for item id x (>= 1)."""
+    return x if rendering == "int" else PALETTE[(x - 1 + int(rendering[3:])) % len(PALETTE)]
+def item_table(rendering, ids): return {_key(render(rendering, x)): x for x in ids}
+
+
 class F:
     """The wrapped filter: raising for the faulty items; otherwise identity on item ids (outs=None: a plain function result) or a
-    generator yielding outs[x-1] outputs x, x+10, x+20, ... for item x (Multiproc.tla!OutId)."""
-    def __init__(self, bad=(), kind=0, outs=None): self.bad = set(bad); self.kind = kind; self.outs = outs
+    generator yielding outs[x-1] outputs x, x+10, x+20, ... for item x (Multiproc.tla!OutId).  table (item_table) maps the rendered
+    item it is handed back to the item's id; None = items are their ids."""
+    def __init__(self, bad=(), kind=0, outs=None, table=None): self.bad = set(bad); self.kind = kind; self.outs = outs; self.table = table
     def filter(self, x):
+        if self.table is not None: x = self.table[_key(x)]
         if self.outs is not None: return self._gen(x)
         if x in self.bad: raise KINDS[self.kind % len(KINDS)](x)
         return x
@@ -56,8 +71,9 @@ class F:
 
 
 class PidF:
-    def __init__(self, bad=(), kind=0, outs=None): self.bad = set(bad); self.kind = kind; self.outs = outs
+    def __init__(self, bad=(), kind=0, outs=None, table=None): self.bad = set(bad); self.kind = kind; self.outs = outs; self.table = table
     def filter(self, x):
+        if self.table is not None: x = self.table[_key(x)]
         if self.outs is not None: return self._gen(x)
         if x in self.bad: raise PLAIN[self.kind % len(PLAIN)]("bad %d" % x)
         return (os.getpid(), x, 0)
@@ -66,23 +82,28 @@ class PidF:
         for j in range(self.outs[(x - 1) % 100]): yield (os.getpid(), x, j)
 
 
+_TABLE = None     # item_table of the stream of the current virtual run (in-queue payloads are pickled rendered items)
 def _label(x):
     if x is None: return 0
     if isinstance(x, bytes):
-        try: return pickle.loads(x)
+        try: x = pickle.loads(x)
         except Exception: return -1
+        return _TABLE.get(_key(x), -1) if _TABLE is not None else x
     return x if isinstance(x, int) else -1
 
 
 def run_virtual(policy, cfg, max_steps=20000):
+    global _TABLE
     import coba.pipes.multiprocessing as M
     ctx, state, undo, _ = vmp.install(M)
+    rendering = cfg.get("render", "int"); ids = range(1, cfg["N"] + 1)
+    table = _TABLE = item_table(rendering, ids)
     vsched.LABEL = _label
     s = Sched(policy, max_steps=max_steps)
     vsched.S = s
     out = {"got": []}
     outs = cfg.get("Outs")        # None = the 1:1 filter returning a plain value
-    mp = M.Multiprocessor(F(cfg["Faults"], cfg.get("kind", 0), outs), cfg["P"], cfg["Max"])
+    mp = M.Multiprocessor(F(cfg["Faults"], cfg.get("kind", 0), outs, None if rendering == "int" else table), cfg["P"], cfg["Max"])
     # private attributes are observed when they exist; -1 = not observable (the trace specification then skips that field).
     # Before the call has set them up the spec's initial values are logged (the attributes appear during filter()).
     started = {"v": False}
@@ -107,7 +128,7 @@ def run_virtual(policy, cfg, max_steps=20000):
     s.events = Ev()
     def main():
         s.events.append(dict(e="start", task="main"))
-        g = mp.filter(list(range(1, cfg["N"] + 1)))
+        g = mp.filter([render(rendering, x) for x in ids])
         outcome = "done"
         try:
             k = cfg.get("abandon_after")
@@ -143,7 +164,7 @@ def run_virtual(policy, cfg, max_steps=20000):
     except vsched.TooLong:
         verdict = "livelock (step budget exceeded)"
     finally:
-        s.abort(); undo(); vsched.LABEL = None
+        s.abort(); undo(); vsched.LABEL = None; _TABLE = None
     evs = []
     for e in s.events:
         t = e.get("task", "-"); k = e["e"]
@@ -220,18 +241,23 @@ def run(ctx):
     per_rand = ctx.pick(3, 10); per_dfs = ctx.pick(4, 25)      # thorough: 385 configurations x 35 schedules (25 + 60 did not finish within 65 min on a busy machine)
     traces = []; meta = []
     def record(res, cfg, how):
-        ctx.case(json.dumps([res["trace"]["cfg"], [(e["r"], e["w"], e["e"], e["x"]) for e in res["trace"]["ev"]]]))
+        ctx.case(json.dumps([res["trace"]["cfg"], cfg.get("render", "int"), [(e["r"], e["w"], e["e"], e["x"]) for e in res["trace"]["ev"]]]))
         if res["verdict"] != "ok":
             ctx.violation("hang", res["verdict"], dict(cfg=cfg, how=how, **res)); return
         res["py"] = python_checks(res, cfg)     # second, spec-independent oracle; TLC still judges the trace
         traces.append(res["trace"]); meta.append((cfg, how, res))
-    for cfg in cs:
+    # which Python objects stand for the items rotates through RENDERINGS from run to run (no additional runs: the schedules do
+    # not depend on it); the bounded DFS of a configuration keeps one rendering.  The trace keeps item ids (_label).
+    nrun = 0
+    for ci, cfg in enumerate(cs):
         if cfg["N"] == 0:
             res = run_virtual(vsched.random_policy(random.Random(1)), cfg); record(res, cfg, dict(kind="random", sched_seed=1)); continue
         few = cfg.get("few")
         for i in range(max(1, per_rand // 3) if few else per_rand):
-            sseed = rng.randrange(1 << 30)
-            record(run_virtual(vsched.random_policy(random.Random(sseed)), cfg), cfg, dict(kind="random", sched_seed=sseed))
+            sseed = rng.randrange(1 << 30); nrun += 1
+            rcfg = dict(cfg, render=RENDERINGS[nrun % len(RENDERINGS)])
+            record(run_virtual(vsched.random_policy(random.Random(sseed)), rcfg), rcfg, dict(kind="random", sched_seed=sseed))
+        cfg = dict(cfg, render=RENDERINGS[ci % len(RENDERINGS)])
         def one(policy):
             res = run_virtual(policy, cfg); return res["choices"], res["nen"], res
         for k, res in enumerate(vsched.dfs(one, max(2, per_dfs // 3) if few else per_dfs)):
@@ -249,8 +275,10 @@ def run(ctx):
     # in-process path (P=1, Max=0) and the empty stream: plain function
     import coba.pipes.multiprocessing as M
     for N in range(0, 4):
-        got = list(M.Multiprocessor(F(), 1, 0).filter(list(range(1, N + 1)))); ctx.case("inproc%d" % N)
-        if got != list(range(1, N + 1)): ctx.violation("inprocess", "in-process path returned %s" % got, dict(N=N))
+        for rendering in RENDERINGS:
+            tab = item_table(rendering, range(1, N + 1))
+            got = list(M.Multiprocessor(F(table=tab), 1, 0).filter(iter([render(rendering, x) for x in range(1, N + 1)]))); ctx.case("inproc%d%s" % (N, rendering))
+            if got != list(range(1, N + 1)): ctx.violation("inprocess", "in-process path returned %s for the %d items %r" % (got, N, [render(rendering, x) for x in range(1, N + 1)]), dict(N=N, rendering=rendering))
     # ---- 3. real spawn processes ----
     real = [(2, 0, 5, [], "one"), (2, 1, 4, [], "one"), (1, 2, 4, [], "one"), (2, 2, 3, [2], "one"), (2, 2, 4, [], "mix"), (1, 1, 2, [], "fan")] if ctx.quick else \
            [(p, m, n, f, "one") for p in (1, 2, 3) for m in (0, 1, 2) for n in (0, 1, 5) for f in ([], [1]) if not (p == 1 and m == 0) and (not f or n >= 1)] + \
@@ -258,17 +286,20 @@ def run(ctx):
     code = r"""
 import sys, json, collections
 sys.path.insert(0, %r)
-from harness.drivers.c08 import PidF
+from harness.drivers.c08 import PidF, render, item_table
 from coba.pipes.multiprocessing import Multiprocessor
 if __name__ == '__main__':
-    P, Max, N, bad, kind, outs = json.loads(sys.argv[1])
-    m = Multiprocessor(PidF(bad, kind, outs), P, Max); got2 = []; exc2 = None
+    P, Max, N, bad, kind, outs, rendering = json.loads(sys.argv[1])
+    # the second stream's items 101.. are rendered as palette entries further on (ids 101.. in the table)
+    tab = None if rendering == 'int' else dict(item_table(rendering, range(1, N + 1)), **{k: v + 93 for k, v in item_table(rendering, range(8, 8 + N)).items()})
+    R = (lambda x: x) if rendering == 'int' else (lambda x: render(rendering, x if x < 100 else x - 93))
+    m = Multiprocessor(PidF(bad, kind, outs, tab), P, Max); got2 = []; exc2 = None
     try:
-        got = list(m.filter(list(range(1, N + 1)))); exc = None
+        got = list(m.filter([R(x) for x in range(1, N + 1)])); exc = None
     except Exception as e:
         got = []; exc = type(e).__name__ + ':' + str(e)
     try:
-        got2 = list(m.filter(list(range(101, 101 + N))))     # the same object, a second stream: nothing of the first call may linger
+        got2 = list(m.filter([R(x) for x in range(101, 101 + N)]))     # the same object, a second stream: nothing of the first call may linger
     except Exception as e:
         exc2 = type(e).__name__ + ':' + str(e)
     print(json.dumps(dict(got=got, exc=exc, got2=got2, exc2=exc2)))
@@ -278,13 +309,14 @@ if __name__ == '__main__':
         outs = None if shape == "one" else outs_of(shape, N)
         want = lambda first: sorted((x, j) for i, x in enumerate(range(first, first + N)) for j in range(outs[i] if outs else 1))
         try:
-            p = subprocess.run([sys.executable, "-W", "ignore", script, json.dumps([P, Max, N, bad, ri + 1, outs])], capture_output=True, text=True, timeout=600)
+            rendering = RENDERINGS[(ri * 8) % len(RENDERINGS)]      # real runs: int, pal7, pal0, pal8, pal1, pal9, ...
+            p = subprocess.run([sys.executable, "-W", "ignore", script, json.dumps([P, Max, N, bad, ri + 1, outs, rendering])], capture_output=True, text=True, timeout=600)
             d = json.loads(p.stdout.strip().splitlines()[-1])
         except subprocess.TimeoutExpired:
             ctx.violation("real-hang", "real spawn run did not terminate within 600 s", dict(P=P, Max=Max, N=N, bad=bad, outs=outs)); continue
         except Exception as e:
             raise RuntimeError("real spawn run failed: %s %s" % (p.stdout[-500:], p.stderr[-2000:]))
-        ctx.case("real%s" % ((P, Max, N, tuple(bad), shape),))
+        ctx.case("real%s" % ((P, Max, N, tuple(bad), shape, rendering),))
         # per pid: the distinct ITEMS seen through its outputs (a lower bound of what it handled when some items yield nothing)
         items = sorted((x, j) for _, x, j in d["got"])
         per = {}
